@@ -22,6 +22,7 @@ type simpleGw struct {
 	nextID uint16
 	nextMsg uint16
 	NoConnack bool
+	HoldPubrel bool // do not answer PUBREC with PUBREL (the script sends it later)
 }
 
 func newSimpleGw() *simpleGw { return &simpleGw{ids: map[string]uint16{}, nextID: 100, nextMsg: 20000} }
@@ -84,7 +85,9 @@ func (sg *simpleGw) handler() func(g *world.GwPeer, p *snref.Pkt, raw []byte) {
 		case snref.PUBREL:
 			g.Send(snref.MsgOnly(snref.PUBCOMP, p.MsgID))
 		case snref.PUBREC:
-			g.Send(snref.MsgOnly(snref.PUBREL, p.MsgID))
+			if !sg.HoldPubrel {
+				g.Send(snref.MsgOnly(snref.PUBREL, p.MsgID))
+			}
 		case snref.PINGREQ:
 			g.Send(snref.Pingresp())
 		case snref.DISCONNECT:
